@@ -37,7 +37,7 @@ def omen_models(draw):
     import itertools
     ngram = draw(st.sampled_from([2, 2, 3, 3, 4, 5]))
     na = draw(st.integers(2, 4 if ngram <= 3 else 3 if ngram == 4 else 2))
-    alpha = draw(st.lists(st.sampled_from(list('abc1é я')), min_size=na, max_size=na, unique=True))
+    alpha = draw(st.lists(st.sampled_from(list('abc1é яAB')), min_size=na, max_size=na, unique=True))
     ctxs = [''.join(t) for t in itertools.product(alpha, repeat=ngram - 1)]
     lv = st.sampled_from([0, 0, 0, 1, 1, 2, 3, 5, 8, 10])
     ip = []
